@@ -28,3 +28,15 @@ Definition mapply (m : M3) (v : V3) : V3 :=
 (* canonical ranges *)
 Definition ra_canonical (ra : R) : Prop := 0 <= ra < 2 * PI.
 Definition dec_canonical (dec : R) : Prop := - (PI / 2) <= dec <= PI / 2.
+
+(* ---- local tangent frame at a direction and the great-circle offset (the
+   documented meaning of astropy's position_angle / separation /
+   directional_offset_by) *)
+Definition north (lon lat : R) : V3 := (- sin lat * cos lon, - sin lat * sin lon, cos lat).
+Definition east (lon lat : R) : V3 := (- sin lon, cos lon, 0).
+Definition vlin (a : R) (u : V3) (b : R) (v : V3) (c : R) (w : V3) : V3 :=
+  (a * c1 u + b * c1 v + c * c1 w, a * c2 u + b * c2 v + c * c2 w, a * c3 u + b * c3 v + c * c3 w).
+(* the point at angular distance d from (lon, lat) in the direction of position
+   angle pa (measured from north through east) *)
+Definition offset_point (lon lat pa d : R) : V3 :=
+  vlin (cos d) (dirv lon lat) (sin d * cos pa) (north lon lat) (sin d * sin pa) (east lon lat).
